@@ -291,8 +291,8 @@ def r17_5(ctx, counts) -> RuleResult:
 
 def _shared(ctx, counts) -> list:
     """is_xml_codepoint decides which characters parse-json / json-to-xml replace (R09.3)"""
-    from .c09_strings import r09_3
-    return [r09_3(ctx, counts)]
+    from .c09_strings import r09_3, r09_6
+    return [r09_3(ctx, counts), r09_6(ctx, counts)]
 
 
 def run(ctx) -> dict:
